@@ -561,6 +561,10 @@ func (f *frame) run() {
 			}
 		}
 		f.blkRin[b] = f.R
+		if f.top && b.Index != 0 && li == nil && len(b.Preds) > 1 && len(b.Instrs) > 0 && os.Getenv("GVC_JOINSTEP") != "" {
+			// a join of several paths: re-establish the frame relative to entry for the joined state (one cheap case per path)
+			f.stepFrames(b.Instrs[0].Pos())
+		}
 		for _, ins := range b.Instrs {
 			if _, ok := ins.(*ssa.Phi); ok {
 				continue
